@@ -156,6 +156,7 @@ macro "good" : tactic => `(tactic| repeat' (first
 
 theorem good_string {d} : G d string := by unfold string; exact good_prim _ (by decide)
 theorem good_nbt {d named} : G d (nbt named) := good_prim _ (Nat.zero_le _)
+theorem good_nbtC {d named} : G d (nbtC named) := good_prim _ (Nat.zero_le _)
 theorem good_component {d} (p : Int) : G d (component p) := by
   unfold component; exact good_ite good_nbt good_string
 
